@@ -29,11 +29,12 @@ from fractions import Fraction
 from . import e2_formula as F
 from .core import Unsupported
 from .e1_srcmodel import dotted
-from .e2_eval import AutoEvaluator, Unknown, is_unknown, need, _vec_binop
+from .e2_eval import AutoEvaluator, Unknown, is_unknown, need, _vec_binop, _binop
 from .sem import unfn
 
 TRUE, FALSE, NONE = F.sym("True"), F.sym("False"), F.sym("None")
 ALLOCATORS = {"np.zeros", "np.empty", "np.ones", "np.zeros_like", "np.empty_like", "np.ones_like", "np.full", "np.full_like", "np.tile"}
+STAR_ARITY = {"signal.lfilter": 3, "lfilter": 3, "scipy.signal.lfilter": 3, "signal.filtfilt": 3, "filtfilt": 3}     # (b, a, x)
 METHODS = {"max", "min", "sum", "any", "all", "var", "std", "mean", "argmax", "argmin", "ptp"}
 
 
@@ -187,6 +188,48 @@ def peel(v):
         v = u[1][0]
 
 
+def _full_slice(x):
+    u = app(x, "slice") if not isinstance(x, (str, tuple)) else None
+    return u is not None and all(sym_of(p) == "None" for p in u[1])
+
+
+def norm_index(ix):
+    """X[j, :] is X[j]: trailing full slices of an index tuple select everything and are dropped"""
+    t = app(ix, "tuple") if not isinstance(ix, (str, tuple)) and not is_unknown(ix) else None
+    if t is None or len(t[1]) < 2:
+        return ix
+    parts = list(t[1])
+    while len(parts) > 1 and _full_slice(parts[-1]):
+        parts.pop()
+    if len(parts) == len(t[1]):
+        return ix
+    return parts[0] if len(parts) == 1 else F.fn("tuple", *parts)
+
+
+def devectorise(v):
+    """[f(X[k], Y[k]) for k in range(len(X))] written as the element-wise expression f(X, Y); only for elements a rule knows to be free of
+    reductions (a comparison of differences with a tolerance), because the evaluator writes dot products as products.  v itself when it is
+    not such a comprehension"""
+    u = app(v, "comp")
+    if u is None or len(u[1]) != 2 or isinstance(u[1][0], str):
+        return v
+    elt = u[1][0]
+    var = sorted({sym_of(x) for x in walk(elt) if (sym_of(x) or "").startswith("_i")})
+    if len(var) != 1:
+        return v
+    mp = {}
+    for _, a, x in apps(elt, "idx"):
+        if len(a) == 2 and not isinstance(a[0], str) and not isinstance(a[1], str) and sym_of(a[1]) == var[0] and not depends(a[0], var[0]):
+            mp[single_atom(x)] = a[0]
+    if not mp:
+        return v
+    try:
+        out = F._subs_poly(elt.n, mp) / F._subs_poly(elt.d, mp)
+    except Unsupported:
+        return v
+    return v if depends(out, var[0]) else out
+
+
 def _boolconst(v):
     """True / False for the constants the evaluator writes for them (the literals are 1 / 0, the names are symbols)"""
     s = sym_of(v)
@@ -262,9 +305,10 @@ class Facts:
                 for m, c in p.t.items():
                     t = c
                     for a, e in m:
-                        if a not in self.nums:
+                        x = self.nums[a] if a in self.nums else self._atom_num(a)
+                        if x is None:
                             return None
-                        t *= self.nums[a] ** e
+                        t *= x ** e
                     tot += t
                 return tot
             n, d = ev(v.n), ev(v.d)
@@ -273,6 +317,34 @@ class Facts:
         if n is None or d is None or d == 0:
             return None
         return n / d
+
+    def _atom_num(self, a):
+        """max(...) / min(...) / abs(...) of numbers"""
+        d = F.atom_desc(a)
+        if d[0] != "fn" or d[1] not in ("call:max", "call:min", "call:np.maximum", "call:np.minimum", "call:np.fmax", "call:np.fmin", "abs", "call:np.max", "call:np.min", "tuple"):
+            return None
+        xs = []
+        for k in d[2]:
+            if isinstance(k, str):
+                return None
+            v = _key_rat(k)
+            u = app(v, "tuple")
+            if u is not None and d[1] in ("call:max", "call:min", "call:np.max", "call:np.min") and len(d[2]) == 1:
+                ys = [self.num(y) for y in u[1]]
+                if any(y is None for y in ys) or not ys:
+                    return None
+                return max(ys) if d[1].endswith("max") else min(ys)
+            x = self.num(v)
+            if x is None:
+                return None
+            xs.append(x)
+        if d[1] == "abs" and len(xs) == 1:
+            return abs(xs[0])
+        if d[1] in ("call:max", "call:np.maximum", "call:np.fmax") and len(xs) >= 2:
+            return max(xs)
+        if d[1] in ("call:min", "call:np.minimum", "call:np.fmin") and len(xs) >= 2:
+            return min(xs)
+        return None
 
     def lookup(self, v):
         for p in self.preds:
@@ -412,6 +484,7 @@ class Trace:
         self.inits = {}      # buffer symbol -> value it was created from
         self.allocs = {}     # buffer symbol -> (allocator name, [positional values], {keyword: value}) when it was created by np.zeros / np.tile / ...
         self.unbound = []    # (name, node, guard): a name read that nothing binds on the path (a local before its assignment, or no such global)
+        self.rebinds = []    # (old buffer symbol, new buffer symbol): whole-array in-place updates made inside helpers
         self.seq = 0
         self.act = 0
         self.nver = {}
@@ -450,9 +523,15 @@ def module_names(mod):
 
 def module_consts(ctx, rel):
     """module-level `NAME = <numeric / string / list-of-those expression>` -> values (folded into the functions that read them)"""
+    return _module_consts(ctx.src, rel)
+
+
+def _module_consts(src, rel):
+    m = src.mod(rel)
+    if getattr(m, "_c10_consts", None) is not None:
+        return dict(m._c10_consts)
     out = {}
-    m = ctx.src.mod(rel)
-    ev = AutoEvaluator(None, src=ctx.src)
+    ev = AutoEvaluator(None, src=src)
     for st in m.tree.body:
         if isinstance(st, ast.Assign) and len(st.targets) == 1 and isinstance(st.targets[0], ast.Name):
             try:
@@ -474,11 +553,12 @@ def module_consts(ctx, rel):
             elif const_of(v) is None and not (isinstance(st.value, ast.Constant) and isinstance(st.value.value, str)):
                 continue
             out[st.targets[0].id] = v
+    m._c10_consts = dict(out)
     return out
 
 
 class XEval(AutoEvaluator):
-    def __init__(self, fn=None, facts=None, trace=None, depth=0, loop_depth=0, path=None, **kw):
+    def __init__(self, fn=None, facts=None, trace=None, depth=0, loop_depth=0, path=None, home=None, **kw):
         super().__init__(fn, **kw)
         self.fn = fn
         self.facts = facts
@@ -497,6 +577,9 @@ class XEval(AutoEvaluator):
         self.act = self.tr.act
         self.locals_ = set()
         self.globals_ = None
+        self.home = home if home is not None else getattr(fn, "_vmod", None)      # module of the function the rule evaluates
+        self.lists = {}              # name -> (loop depth, path length) where the list under construction was created
+        self.closures = set()        # ids of FunctionDefs met inside the evaluated body (nested helpers, named lambdas)
         if fn is not None:
             a = fn.args
             for x in a.posonlyargs + a.args + a.kwonlyargs + ([a.vararg] if a.vararg else []) + ([a.kwarg] if a.kwarg else []):
@@ -549,6 +632,27 @@ class XEval(AutoEvaluator):
         u = app(x, "comp")
         if u is not None:
             return u[1][1]
+        u = app(x, "idx")
+        if u is not None and not isinstance(u[1][1], str) and not isinstance(u[1][0], str):
+            t = app(u[1][1], "tuple")
+            parts = list(t[1]) if t is not None else [u[1][1]]
+            if len(parts) >= 2 and _full_slice(parts[0]) and all(self._scalar_index(p) for p in parts[1:]):
+                return self.mk_len(u[1][0])                          # X[:, k] has as many entries as X has rows
+        u = app(x, "call:np.digitize")
+        if u is not None and u[1] and not isinstance(u[1][0], str):
+            return self.mk_len(u[1][0])                              # one bin index per value
+        if not isinstance(x, (tuple, str)) and not is_unknown(x) and const_of(x) is None and x.d.is_const():
+            arrs = [m for m in x.n.t if m]
+            if len(arrs) == 1 and len(arrs[0]) == 1 and arrs[0][0][1] == 1 and len(x.n.t) == 2 and sym_of(F.Rat(F.Poly.atom(arrs[0][0][0]))) is None:
+                return self.mk_len(F.Rat(F.Poly.atom(arrs[0][0][0])))       # a * X + b has the length of X
+        u = app(x)
+        if u is not None and u[0] in ("zip", "enumerate") and u[1] and not isinstance(u[1][0], str):
+            return self.mk_len(untuple(u[1][0]))        # element-wise constructs have the length of what they run over
+        if u is not None and u[0] == "range" and not any(isinstance(a, str) for a in u[1]):
+            if len(u[1]) == 1:
+                return u[1][0]
+            if len(u[1]) == 2:
+                return u[1][1] - u[1][0]
         return F.fn("len", need(x))
 
     def _scalar_index(self, ix):
@@ -570,7 +674,19 @@ class XEval(AutoEvaluator):
             if c is not None and c.denominator == 1 and -len(base) <= c < len(base):
                 return base[int(c)]
             return F.fn("idx", wrap(base), wrap(ix))
-        ix = wrap(ix)
+        ix = self._from_end(base, norm_index(wrap(ix)))
+        u = app(base)
+        if u is not None and u[0] == "zip" and not any(isinstance(a, str) for a in u[1]) and self._scalar_index(ix):
+            return tuple(self.mk_idx(untuple(a), ix) for a in u[1])          # element k of zip(a, b) is (a[k], b[k])
+        if u is not None and u[0] == "enumerate" and len(u[1]) == 1 and not isinstance(u[1][0], str) and self._scalar_index(ix):
+            return (ix, self.mk_idx(untuple(u[1][0]), ix))
+        if u is not None and u[0] == "range" and not any(isinstance(a, str) for a in u[1]) and self._scalar_index(ix) and const_of(ix) is None:
+            if len(u[1]) == 1:
+                return ix
+            if len(u[1]) == 2:
+                return u[1][0] + ix
+        if const_of(base) is not None and self._scalar_index(ix):
+            return base                                     # an element / a row of a constant-filled array
         u = app(base, "idx")
         if u is not None and not isinstance(u[1][0], str) and not isinstance(u[1][1], str):
             b0, i0 = u[1]
@@ -588,6 +704,45 @@ class XEval(AutoEvaluator):
                     new = first[:-1] + [ix + clo]
                     return F.fn("idx", b0, new[0] if len(new) == 1 else F.fn("tuple", *new))
         return F.fn("idx", need(base), ix)
+
+    def _lengths(self, base):
+        """values that stand for the number of entries of `base` (a 1-D array): len(base), base.size, the size it was allocated with"""
+        out = []
+        try:
+            out.append(self.mk_len(base))
+            out.append(F.fn("attr:size", need(base)))
+            s = sym_of(base)
+            if s is not None:
+                out.append(F.sym(s + ".size"))
+                al = self.tr.allocs.get(s)
+                if al is not None and al[0] in ("np.zeros", "np.empty", "np.ones", "np.full") and (al[1] or "shape" in al[2]):
+                    shp = al[1][0] if al[1] else al[2]["shape"]
+                    if not isinstance(shp, tuple) and not is_unknown(shp) and app(shp, "tuple") is None:
+                        out.append(shp)
+        except Unsupported:
+            pass
+        return out
+
+    def _from_end(self, base, ix):
+        """X[len(X) - k] is X[-k] (also inside slices and index tuples)"""
+        if isinstance(base, (tuple, str)) or is_unknown(base) or isinstance(ix, (tuple, str)) or is_unknown(ix):
+            return ix
+        u = app(ix)
+        if u is not None and u[0] in ("tuple",):
+            return ix
+        if u is not None and u[0] == "slice":
+            parts = [p if isinstance(p, str) or sym_of(p) == "None" else self._from_end(base, p) for p in u[1]]
+            return F.fn("slice", *parts)
+        if const_of(ix) is not None or sym_of(ix) is not None:
+            return ix
+        for ln in self._lengths(base):
+            try:
+                c = const_of(ix - ln)
+            except Unsupported:
+                c = None
+            if c is not None and c < 0 and c.denominator == 1:
+                return F.const(c)
+        return ix
 
     def _ev(self, node):
         if isinstance(node, ast.Name):
@@ -627,6 +782,10 @@ class XEval(AutoEvaluator):
             return mk_ite(tv, self.ev(node.body), self.ev(node.orelse))
         if isinstance(node, (ast.ListComp, ast.GeneratorExp)):
             return self._comp(node)
+        if isinstance(node, (ast.List, ast.Tuple)) and len(node.elts) == 1 and isinstance(node.elts[0], ast.Starred):
+            return self._ev(node.elts[0].value)                      # [*xs]: the elements of xs
+        if isinstance(node, ast.Lambda) and not node.args.vararg and not node.args.kwarg and not node.args.kwonlyargs:
+            return F.sym(self._lambda(node, None))
         if isinstance(node, ast.DictComp):
             return self._dictcomp(node)
         if isinstance(node, ast.Dict):
@@ -813,7 +972,12 @@ class XEval(AutoEvaluator):
                 elif is_unknown(v):
                     args.append(self._tmpname(v))
                 else:
-                    args.append(self._tmpname(F.fn("star", need(v))))
+                    # f(*g(...), x): for a callee whose leading parameters are known, the starred value fills the ones not given otherwise
+                    n = STAR_ARITY.get(dotted(node.func), 0) - sum(1 for x in node.args if not isinstance(x, ast.Starred))
+                    if n >= 1 and sum(1 for x in node.args if isinstance(x, ast.Starred)) == 1:
+                        args += [self._tmpname(self.mk_idx(v, F.const(k))) for k in range(n)]
+                    else:
+                        args.append(self._tmpname(F.fn("star", need(v))))
             else:
                 v = self.ev(a)
                 try:
@@ -833,7 +997,45 @@ class XEval(AutoEvaluator):
             kws.append(ast.keyword(arg=k.arg if k.arg is not None else "_kwargs", value=self._tmpname(v)))
         return ast.Call(func=node.func, args=args, keywords=kws)
 
+    def _map(self, node):
+        """map(f, xs, ...) is the comprehension [f(x, ...) for x, ... in zip(xs, ...)]"""
+        f = node.args[0]
+        its = [untuple(self.ev(a)) for a in node.args[1:]]
+        if any(is_unknown(v) for v in its):
+            return next(v for v in its if is_unknown(v))
+        name = f"_i{self.loop_depth}"
+        k = F.sym(name)
+        dom = self.mk_len(its[0])
+        saved = dict(self.env)
+        self.loop_depth += 1
+        self.loopstack.append((name, dom))
+        try:
+            elems = [self.mk_idx(v, k) for v in its]
+            if isinstance(f, ast.Lambda):
+                a = f.args
+                ps = [x.arg for x in a.posonlyargs + a.args]
+                if a.vararg or a.kwarg or a.kwonlyargs or len(ps) != len(elems):
+                    return Unknown("map with a lambda of another arity")
+                for p_, e in zip(ps, elems):
+                    self.env[p_] = e
+                elt = self.ev(f.body)
+            else:
+                call = ast.Call(func=f, args=[self._tmpname(wrap(e) if self._deep(e) else e) for e in elems], keywords=[])
+                ast.copy_location(call, node)
+                elt = self.ev(call)
+        except Unsupported as e:
+            return Unknown(str(e))
+        finally:
+            self.loop_depth -= 1
+            self.loopstack.pop()
+            self.env = saved
+        if is_unknown(elt) or is_unknown(dom):
+            return elt if is_unknown(elt) else Unknown("map domain")
+        return F.fn("comp", wrap(elt), need(dom))
+
     def _call(self, node):
+        if dotted(node.func) == "map" and len(node.args) >= 2 and not node.keywords and not any(isinstance(a, ast.Starred) for a in node.args):
+            return self._map(node)
         if node.args or node.keywords:
             new = self._args_expanded(node)
             ast.copy_location(new, node)
@@ -872,12 +1074,26 @@ class XEval(AutoEvaluator):
             return self._dot(self.ev(node.args[0]), self.ev(node.args[1]))
         if isinstance(node.func, ast.Attribute) and node.func.attr == "dot" and nargs == 1 and not kws and d not in ("np.dot",):
             return self._dot(self.ev(node.func.value), self.ev(node.args[0]))
-        if d == "np.diff" and nargs == 1 and not kws:
+        if d == "np.diff" and nargs == 1 and kws <= {"axis", "n"}:
             v = self.ev(node.args[0])
-            if not is_unknown(v) and not isinstance(v, tuple):
+            ax = next((const_of(self.ev(k.value)) for k in node.keywords if k.arg == "axis"), -1)
+            nn = next((const_of(self.ev(k.value)) for k in node.keywords if k.arg == "n"), 1)
+            if not is_unknown(v) and not isinstance(v, tuple) and nn == 1 and ax in (0, 1, -1):
                 lo = F.fn("slice", F.const(1), NONE, NONE)
                 hi = F.fn("slice", NONE, F.const(-1), NONE)
+                if ax == 1:           # along the columns of a 2-D array
+                    full = F.fn("slice", NONE, NONE, NONE)
+                    lo, hi = F.fn("tuple", full, lo), F.fn("tuple", full, hi)
                 return self.mk_idx(v, lo) - self.mk_idx(v, hi)
+        if d in ("np.inner", "np.vdot") and nargs == 2 and not kws:
+            return self._dot(self.ev(node.args[0]), self.ev(node.args[1]))
+        if d in ("np.power", "pow") and nargs == 2 and not kws:
+            a, b = self.ev(node.args[0]), self.ev(node.args[1])
+            if not is_unknown(a) and not is_unknown(b) and not isinstance(a, tuple) and not isinstance(b, tuple):
+                try:
+                    return need(a) ** need(b)
+                except Unsupported as e:
+                    return Unknown(str(e))
         if d in ("np.hstack", "np.concatenate") and nargs == 1 and kws <= {"axis"}:
             ax = next((self.ev(k.value) for k in node.keywords if k.arg == "axis"), None)
             if ax is None or const_of(ax) in (1, -1) or (d == "np.concatenate" and const_of(ax) == 0):
@@ -893,7 +1109,7 @@ class XEval(AutoEvaluator):
                     if any(is_unknown(x) or isinstance(x, tuple) for x in parts):
                         return next((x for x in parts if is_unknown(x)), Unknown("nested tuple"))
                     return F.fn("hcat", *[need(x) for x in parts])
-        if d in ("np.vstack", "np.column_stack", "np.stack", "np.row_stack") and nargs == 1 and not kws:
+        if d in ("np.vstack", "np.column_stack", "np.stack", "np.row_stack") and nargs == 1 and (not kws or (d == "np.stack" and kws == {"axis"})):
             v = untuple(self.ev(node.args[0]))
             if isinstance(v, tuple):
                 out = []
@@ -908,6 +1124,40 @@ class XEval(AutoEvaluator):
             vs = [untuple(self.ev(a)) for a in node.args]
             if all(isinstance(v, tuple) for v in vs) and len({len(v) for v in vs}) == 1:
                 return tuple(tuple(v[i] for v in vs) for i in range(len(vs[0])))
+            if any(is_unknown(v) for v in vs):
+                return next(v for v in vs if is_unknown(v))
+            try:
+                return F.fn("zip", *[wrap(v) for v in vs])           # element-wise: indexed / iterated through mk_idx
+            except Unsupported as e:
+                return Unknown(str(e))
+        if d == "enumerate" and not kws and nargs == 1:
+            v = self.ev(node.args[0])
+            if is_unknown(v):
+                return v
+            try:
+                return F.fn("enumerate", wrap(v))
+            except Unsupported as e:
+                return Unknown(str(e))
+        if d == "range" and not kws and 1 <= nargs <= 2:
+            vs = [self.ev(a) for a in node.args]
+            if any(is_unknown(v) or isinstance(v, tuple) for v in vs):
+                return Unknown("range bounds")
+            return F.fn("range", *vs)
+        if d in ("list", "tuple") and not kws and nargs == 1:
+            return self.ev(node.args[0])                              # a sequence of the same elements
+        if d == "np.fromiter" and nargs >= 1 and kws <= {"dtype", "count"}:
+            return self.ev(node.args[0])
+        if d == "np.full" and 1 <= nargs <= 3 and kws <= {"fill_value", "dtype", "shape"}:
+            fv = node.args[1] if nargs >= 2 else next((k.value for k in node.keywords if k.arg == "fill_value"), None)
+            if fv is not None:
+                v = self.ev(fv)
+                b = _boolconst(v) if sym_of(v) in ("True", "False") else None
+                if b is not None:
+                    self._record_call(node)
+                    return F.const(1 if b else 0)                     # np.full(n, False) / np.zeros(n, bool), np.full(n, True) / np.ones(n, bool)
+                if const_of(v) is not None:
+                    self._record_call(node)
+                    return v
         if d == "dict" and nargs <= 1:
             parts = []
             if nargs == 1:
@@ -964,7 +1214,17 @@ class XEval(AutoEvaluator):
 
     def _inline_call(self, node):
         name = dotted(node.func)
+        if isinstance(node.func, ast.Name) and node.func.id in self.env and (sym_of(self.env[node.func.id]) or "").startswith("<lambda:"):
+            name = sym_of(self.env[node.func.id])                   # a local bound to a lambda (possibly chosen by a ternary the facts decide)
+        elif name is None and isinstance(node.func, (ast.IfExp, ast.Lambda)):
+            fv = self.ev(node.func)
+            if (sym_of(fv) or "").startswith("<lambda:"):
+                name = sym_of(fv)
         fn = self.inline.get(name) if self.inline else None
+        own = getattr(self.fn, "_vmod", None)
+        if fn is None and name and "." not in name and own is not None and self.home is not None and own is not self.home and self.inline_depth > 0:
+            # inside a helper that lives in another module than the analysed function: bare names are that module's functions
+            fn = own.funcs.get(name)
         if fn is None or self.inline_depth >= 4 or fn is self.fn:
             return NotImplemented
         a = fn.args
@@ -993,18 +1253,36 @@ class XEval(AutoEvaluator):
         for p_, dd in zip(kwonly, a.kw_defaults):
             if p_ not in env and dd is not None:
                 env[p_] = self.ev(dd)
-        full = dict(getattr(self, "consts", {}))
+        consts = getattr(self, "consts", {})
+        cmod = getattr(fn, "_vmod", None)
+        if cmod is not None and own is not None and cmod is not own:
+            consts = _module_consts(self.src, cmod.rel)          # the callee reads the constants of its own module
+        full = dict(consts)
+        if id(fn) in self.closures:
+            full.update({k: v for k, v in self.env.items() if not k.startswith("<")})        # a closure reads the enclosing function's names
         full.update(env)
-        sub = type(self)(fn, facts=self.facts, trace=self.tr, depth=self.inline_depth + 1, loop_depth=self.loop_depth, path=self.path,
+        sub = type(self)(fn, facts=self.facts, trace=self.tr, depth=self.inline_depth + 1, loop_depth=self.loop_depth, path=self.path, home=self.home,
                          env=full, src=self.src, subscript=self.subscript, call=self.call_hook, binop=self.binop_hook)
-        sub.consts = getattr(self, "consts", {})
+        sub.consts = consts
         sub.inline = self.inline
+        sub.closures = set(self.closures)
+        if id(fn) in self.closures:
+            sub.buffers |= {b for b in self.buffers if b not in sub.locals_}               # the enclosing function's arrays stay arrays
         sub.loopstack = list(self.loopstack)
+        n0 = len(self.tr.rebinds)
         sub.run(fn.body)
+        self._apply_rebinds(n0)
         v = combine_returns(sub.returns, len(self.path))
         if v is None:
             return NONE
         return v
+
+    def _apply_rebinds(self, n0):
+        """a helper updated an array it was handed as a whole in place (`arr += x`): the names that held the old content hold the new one"""
+        for old, new in self.tr.rebinds[n0:]:
+            for k, v in list(self.env.items()):
+                if not k.startswith("<") and sym_of(v) == old:
+                    self.env[k] = F.sym(new)
 
     # ------------------------------------------------------------------ assignments
     def _new_version(self, name, init):
@@ -1018,6 +1296,12 @@ class XEval(AutoEvaluator):
 
     def _assign(self, target, v, st, aug=False):
         if isinstance(target, ast.Name) and target.id in self.buffers:
+            if not aug and sym_of(v) is not None and sym_of(v) in self.tr.inits:
+                self.env[target.id] = v         # `pv = PV`: a second name for the same array, not a new array
+                return
+            if not aug and self._view(v) is not None:
+                self.env[target.id] = v         # `row = X[j]`: stores into `row` are stores into X[j]
+                return
             sname = self._new_version(target.id, v)
             val = getattr(st, "value", None)
             if isinstance(val, ast.Call) and dotted(val.func) in ALLOCATORS and not aug:
@@ -1036,7 +1320,9 @@ class XEval(AutoEvaluator):
             nm = target.value.id
             cur = self.env.get(nm)
             try:
-                ix = self._index_value(target.slice)
+                ix = norm_index(self._index_value(target.slice))
+                if cur is not None and not is_unknown(cur) and not isinstance(cur, tuple):
+                    ix = self._from_end(cur, ix)
             except Unsupported as e:
                 ix = Unknown(str(e))
             root = nm
@@ -1047,7 +1333,7 @@ class XEval(AutoEvaluator):
                     root = s
                     if pre and not is_unknown(ix):
                         t = app(ix, "tuple")
-                        ix = F.fn("tuple", *(pre + (list(t[1]) if t is not None else [ix])))
+                        ix = norm_index(F.fn("tuple", *(pre + (list(t[1]) if t is not None else [ix]))))
             self.tr.seq += 1
             self.seq = self.tr.seq
             self.cell_seq.append(self.tr.seq)
@@ -1119,9 +1405,158 @@ class XEval(AutoEvaluator):
                 self.run(st.orelse)
                 self.run(st.finalbody)
             return
-        if isinstance(st, (ast.FunctionDef, ast.AsyncFunctionDef, ast.ClassDef)):
+        if isinstance(st, ast.FunctionDef):
+            # a helper defined inside the function (a closure): followed like a module-level helper, reading the enclosing names
+            self.inline = dict(self.inline or {})
+            self.inline[st.name] = st
+            self.closures.add(id(st))
             return
+        if isinstance(st, (ast.AsyncFunctionDef, ast.ClassDef)):
+            return
+        if isinstance(st, ast.AugAssign) and isinstance(st.target, ast.Name) and self._inplace(st):
+            return
+        if isinstance(st, ast.Assign) and len(st.targets) == 1 and isinstance(st.targets[0], ast.Name) and st.targets[0].id not in self.buffers \
+                and ((isinstance(st.value, ast.List) and not st.value.elts)
+                     or (isinstance(st.value, ast.Call) and dotted(st.value.func) == "list" and not st.value.args and not st.value.keywords)):
+            self.lists[st.targets[0].id] = (len(self.loopstack), len(self.path))
+            self.env[st.targets[0].id] = ()
+            return
+        if isinstance(st, ast.Expr) and isinstance(st.value, ast.Call) and isinstance(st.value.func, ast.Attribute) and st.value.func.attr == "append" \
+                and isinstance(st.value.func.value, ast.Name) and st.value.func.value.id in self.lists and len(st.value.args) == 1 and not st.value.keywords:
+            return self._append(st.value.func.value.id, st.value.args[0])
         return super().stmt(st)
+
+    def _lambda(self, lam, name):
+        """a lambda is a helper without a name: registered in the inline table under a private name (its value is the symbol of that name)"""
+        key = getattr(lam, "_c10_name", None)
+        if key is None:
+            self.tr.nver["<lambda>"] = self.tr.nver.get("<lambda>", 0) + 1
+            key = lam._c10_name = f"<lambda:{self.tr.nver['<lambda>']}>"
+            fn = ast.FunctionDef(name=name or "lambda", args=lam.args, body=[ast.Return(value=lam.body)], decorator_list=[], returns=None, type_params=[])
+            ast.copy_location(fn, lam)
+            ast.copy_location(fn.body[0], lam)
+            fn._vmod = getattr(self.fn, "_vmod", None)
+            fn._vparent = getattr(lam, "_vparent", None)
+            lam._c10_fn = fn
+        self.inline = dict(self.inline or {})
+        self.inline[key] = lam._c10_fn
+        self.closures.add(id(lam._c10_fn))
+        return key
+
+    def _append(self, name, arg):
+        """`xs = []` ... `xs.append(v)`: outside a loop the list grows by one element; inside one loop (possibly under tests) it is the
+        comprehension [v for <loop> if <tests>]"""
+        depth0, plen0 = self.lists[name]
+        cur = self.env.get(name)
+        v = self.ev(arg)
+        here = len(self.loopstack)
+        if here == depth0 and isinstance(cur, tuple) and len(self.path) <= plen0:
+            self.env[name] = cur + (v,)
+            return
+        ok = here == depth0 + 1 and isinstance(cur, tuple) and not cur and not is_unknown(v) and not is_unknown(self.loopstack[-1][1])
+        if ok:
+            try:
+                conds = [need(c if pol else mk_not(c)) for c, pol in self.path[plen0:]]
+                self.env[name] = F.fn("comp", wrap(v), need(self.loopstack[-1][1]), *conds)
+                return
+            except Unsupported:
+                pass
+        self.env[name] = Unknown(f"list {name} built in a way that is not one append per iteration")
+
+    def _rank(self, s, depth=3):
+        """number of axes of a buffer symbol when its allocation (or that of the array it was made from) shows it"""
+        al = self.tr.allocs.get(s)
+        if al is not None and al[0] in ("np.zeros", "np.empty", "np.ones", "np.full"):
+            shp = al[1][0] if al[1] else al[2].get("shape")
+            if isinstance(shp, tuple):
+                return len(shp)
+            t = app(shp, "tuple") if shp is not None and not is_unknown(shp) else None
+            if t is not None:
+                return len(t[1])
+            return None if shp is None or is_unknown(shp) else 1
+        ini = self.tr.inits.get(s)
+        if depth and ini is not None and not is_unknown(ini) and not isinstance(ini, tuple):
+            rs = [self._rank(sym_of(x), depth - 1) for x in walk(ini) if sym_of(x) in self.tr.inits and sym_of(x) != s]
+            rs = [r for r in rs if r is not None]
+            return max(rs) if rs else None
+        return None
+
+    def _subscripted(self, name):
+        return self.fn is not None and any(isinstance(n, ast.Subscript) and isinstance(n.value, ast.Name) and n.value.id == name for n in ast.walk(self.fn))
+
+    def _view(self, v):
+        """(root symbol, [indices]) when v is a view of an array obtained by basic indexing (integers, loop indices, slices - no masks, no
+        index arrays computed by calls), else None"""
+        if v is None or is_unknown(v) or isinstance(v, (tuple, str)):
+            return None
+        b, ix = peel(v)
+        s = sym_of(b)
+        if s is None or not ix or s.startswith("_i") or s in ("None", "True", "False"):
+            return None
+        for x in ix:
+            if isinstance(x, str):
+                return None
+            if app(x, "slice") is not None:
+                if any(apps(p, "call:") or apps(p, "cmp:") for p in app(x, "slice")[1]):
+                    return None
+                continue
+            if apps(x, "call:") or apps(x, "cmp:") or apps(x, "mask:") or apps(x, "invert") or apps(x, "not") or apps(x, "bool:") or apps(x, "comp"):
+                return None
+        return s, ix
+
+    def _inplace(self, st):
+        """`row *= a` where `row` is a view of an array (`row = X[j]`, or a parameter handed X[j]): an in-place update of X[j], recorded as a
+        store into X like `X[j] *= a`; a whole array handed to a helper and updated there is a new version of that array for the caller.
+        A name holding a scalar element is simply re-bound (False: the ordinary assignment applies)."""
+        name = st.target.id
+        cur = self.env.get(name)
+        if cur is None or is_unknown(cur) or isinstance(cur, tuple):
+            return False
+        s, ix = sym_of(cur), []
+        if s is not None:
+            # a whole array: only inside a helper, for an array of the caller (the analysed function's own arrays are versioned by _assign)
+            if self.inline_depth == 0 or s not in self.tr.inits:
+                return False
+        else:
+            vw = self._view(cur)
+            if vw is None:
+                return False
+            s, ix = vw
+            nsc = sum(1 for x in ix if app(x, "slice") is None)
+            rank = self._rank(s)
+            sliced = any(not isinstance(x, str) and app(x, "slice") is not None for x in ix)
+            if rank is not None:
+                if not (sliced or nsc < rank):
+                    return False
+            elif not (sliced or self._subscripted(name)):
+                return False
+        v = self.ev(st.value)
+        if is_unknown(v) or isinstance(v, tuple):
+            nv = v if is_unknown(v) else Unknown("in-place update with a tuple")
+        else:
+            try:
+                r = self.binop_hook(ast.BinOp(left=st.target, op=st.op, right=st.value), cur, v, self) if self.binop_hook is not None else NotImplemented
+                nv = r if r is not NotImplemented else _binop(st.op, need(cur), need(v))
+            except Unsupported as e:
+                nv = Unknown(str(e))
+        if not ix:
+            k = self.tr.nver.get(("<inplace>", s), 0) + 1
+            self.tr.nver[("<inplace>", s)] = k
+            new = f"{s}~{k}"
+            self.tr.inits[new] = nv
+            self.tr.rebinds.append((s, new))
+            for key, val in list(self.env.items()):
+                if not key.startswith("<") and sym_of(val) == s:
+                    self.env[key] = F.sym(new)
+            return True
+        self.tr.seq += 1
+        self.seq = self.tr.seq
+        self.cell_seq.append(self.tr.seq)
+        ixv = ix[0] if len(ix) == 1 else F.fn("tuple", *ix)
+        self.tr.cells.append((s, ixv, nv, st))
+        self.tr.cellx.append(dict(guard=tuple(self.path), loops=self._loops(), seq=self.tr.seq, aug=True))
+        self.stores.append((s, repr(ixv), nv, st))
+        return True
 
     def _if(self, st):
         tv = self.ev(st.test)
@@ -1337,7 +1772,7 @@ class Degrees:
     None = unknown (an opaque function of a scaled quantity)."""
 
     LINEAR = {"abs": 0, "call:np.max": 0, "call:np.min": 0, "call:np.sum": 0, "call:np.mean": 0, "call:np.ptp": 0, "call:np.std": 0,
-              "call:signal.detrend": 0, "call:dsp.windowends": 0, "call:pd.DataFrame": 0, "call:pd.Series": 0, "tile": 0,
+              "call:signal.detrend": 0, "call:dsp.windowends": 0, "call:pd.DataFrame": 0, "call:pd.Series": 0, "tile": 0, "call:DataFrame": 0, "call:Series": 0,
               "call:np.sort": 0, "call:np.cumsum": 0, "call:np.ravel": 0, "call:np.array": 0, "star": 0, "call:np.asarray": 0,
               "call:float": 0, "call:np.tile": 0, "call:np.maximum.accumulate": 0, "call:np.fmax": None, "call:np.fmin": None}
     INVARIANT = {"call:np.argmax", "call:np.argmin", "call:np.argsort", "call:np.sign", "call:np.nonzero", "len", "attr:size",
@@ -1507,7 +1942,7 @@ class Degrees:
                                 self.busy.discard(key)
                 return None
             return self.of(base)
-        if name in ("tuple", "hcat", "fstr"):
+        if name in ("tuple", "hcat", "fstr", "zip", "enumerate"):
             try:
                 return self._common([self.of(x) for x in args if x is not None])
             except Inhomogeneous:
